@@ -523,7 +523,7 @@ class Check:
         json.dump(ev, open(os.path.join(EVID, f"{self.pid}.json"), "w"), indent=1)
         for l in lines:
             print(l, flush=True)
-        if status == 0:
+        if status == 0 and "machinery_error" not in self.extra:
             print(f"OK property={self.pid} tier={self.tier} obligations={pr['obligations']} discharged={pr['discharged']} "
                   f"evaluations={self.evaluations} distinct_nontrivial={len(self.nontrivial_hashes)} "
                   f"wall_s={ev['wall_s']}", flush=True)
